@@ -498,8 +498,22 @@ void Explorer<FSM>::checkC06(const Node&, Exec& x) {
 		for (const Exe& ex : exes) if (ex.head != h && ex.head >= lo && ex.head < hi) { const int l2 = ex.head, h2 = ex.head + E::D(ex.head).size; if (ex.dest < l2 || ex.dest >= h2) innerOuter = true; }
 		for (const Mark& m : marks) if (m.state == h && !m.propagated) headTouched = true;
 		// marks deeper than the direct sub-states travel up through regions without a plan: not judged here
+		// ... except a FAILURE below a direct sub-state when every region in between has no plan: nothing can handle it on the
+		// way, it is the failure of that direct sub-state (a plan-less region has no handler that could override anything)
 		bool deepMark = false;
-		for (const Mark& m : marks) if (m.state > lo && m.state < hi && E::D(m.state).parent != h) deepMark = true;
+		std::vector<int> nestedFail;
+		for (const Mark& m : marks) {
+			if (!(m.state > lo && m.state < hi && E::D(m.state).parent != h)) continue;
+			bool planLessChain = !m.succ;
+			int top = m.state;
+			while (E::D(top).parent != h && E::D(top).parent >= 0) {
+				top = E::D(top).parent;
+				if (E::D(top).region < 0 || exists[E::D(top).region] || !E::named(top)) planLessChain = false;
+			}
+			for (const Mark& p : marks) if (p.state == top || (p.state > top && p.state < top + E::D(top).size && p.state != m.state)) planLessChain = false;  // one result inside that sub-tree only
+			if (planLessChain && E::D(top).parent == h) { nestedFail.push_back(top); ++counters["c06_failures_below_plan_less_sub_regions"]; }
+			else deepMark = true;
+		}
 		if (envReqInside || innerOuter || headTouched || deepMark) continue;
 		// witnesses for the known status-sharing findings
 		bool ancestorHead = false;
@@ -513,6 +527,7 @@ void Explorer<FSM>::checkC06(const Node&, Exec& x) {
 			const int c = E::child(h, p);
 			if (!x.before.active[c]) continue;
 			for (const Mark& m : marks) if (m.state == c) (m.succ ? directSucc : directFail).push_back(c);
+			for (int t : nestedFail) if (t == c) directFail.push_back(c);
 		}
 		auto got = [&](int meth) { for (size_t i = x.stepBegin; i < x.stepEnd; ++i) if (x.trace[i].meth == meth && x.trace[i].state == h) return true; return false; };
 		++counters["c06_liveness_cases"];
